@@ -81,6 +81,9 @@ def _gen(g):
         case["bufs"] = g.choice([16384, 65536, None])
         case["max"]["b"] = [g.choice([1000, 65536, 1 << 20])]
         case["first_read"] = g.bool()      # the reader receives one chunk, then stalls
+        if g.chance(30):
+            case["peer_eof"] = True
+            case["msgs"]["a"] = [1 << 20] * g.int(30, 40)
         if g.chance(35):
             # the reader first consumes a few hundred KiB in small pieces (chunks split many times), then stalls
             case["history"] = {"bytes": g.choice([70000, 300000, 600000]), "max": g.choice([64, 100, 1000])}
@@ -95,6 +98,7 @@ def _gen(g):
             case["cancelled_first"] = g.chance(70)
             case["pieces"] = g.int(2, 3)
             case["max"]["b"] = [g.choice([1000, 65536, 1 << 20])]      # chunks are taken whole
+            case["doomed_receive"] = g.chance(60)
     elif scenario == "close":
         case["msgs"] = {"a": msgs(3, [1, 100, 4096, 65536]), "b": []}
         case["bufs"] = None
@@ -325,6 +329,32 @@ async def scenario_latereader(case, out, stats, w, r):
             out.bad("no-back-pressure", case["kind"] + ":" + case["writer"],
                     f"{accepted_before_read} bytes of send() completed although the peer never called receive(); "
                     f"the kernel alone accepts {K} (bound {bound})")
+        if case.get("peer_eof") and not finished.is_set():
+            # the silent peer half-closes (it keeps its receiving side open) while the writer is parked and the
+            # writer's side also has a task waiting in receive(): the writer must stay parked
+            async def w_receiver():
+                try:
+                    while True:
+                        await w.receive(100)
+                except EndOfStream:
+                    result["w_saw_eof"] = True
+
+            tg.start_soon(w_receiver)
+            await anyio.sleep(0.02)
+            await r.send_eof()
+            last, still = -1, 0
+            while not finished.is_set() and still < 8:
+                await anyio.sleep(0.05)
+                if prog["w"] == last:
+                    still += 1
+                else:
+                    last, still = prog["w"], 0
+            after = prog["w"] - pre
+            stats["peer_half_closed_while_writer_parked"] += 1
+            if after > bound + max(case["msgs"]["a"]):
+                out.bad("no-back-pressure", "after-peer-eof:" + case["kind"],
+                        f"{after} bytes of send() completed after the peer's send_eof() although it never read "
+                        f"(before: {accepted_before_read}, bound {bound})")
         got = pre + await recv_all_from(r, case["max"]["b"], out, "r", stats, pre)
         if got != total:
             out.bad("bytes-lost-or-extra", "latereader", f"{got} of {total} bytes arrived")
@@ -353,6 +383,19 @@ async def scenario_pingpong(case, out, stats, w, r):
                 await anyio.sleep(0.01)
         else:
             await w.send(pat(off, n))
+        if case.get("doomed_receive"):
+            # a receive() made inside an already cancelled scope: it raises (or returns the next bytes); either way
+            # the stream must go on in order
+            with anyio.CancelScope() as dsc:
+                dsc.cancel()
+                chunk = await r.receive(case["max"]["b"][0])
+                if chunk != pat(off, len(chunk)):
+                    out.bad("stream-corrupted", "pingpong", f"doomed receive at offset {off}")
+                    return
+                off_extra = len(chunk)
+                n -= off_extra
+                off += off_extra
+            stats["receive_in_cancelled_scope"] += 1
         got = 0
         i = 0
         try:
@@ -597,7 +640,8 @@ def run_case(case) -> Outcome:
     stats = dict.fromkeys(["duplex", "latereader", "close", "busy", "pingpong", "more_than_kernel_capacity",
                            "chunk_split_by_max_bytes", "watchdog_rerun", "stall_after_first_receive",
                            "stall_after_small_reads", "busy_with_buffered_data",
-                           "receive_cancelled_while_waiting"], 0)
+                           "receive_cancelled_while_waiting", "peer_half_closed_while_writer_parked",
+                           "receive_in_cancelled_scope"], 0)
     hangs = 0
     for attempt in range(3):
         trial = Outcome()
